@@ -256,6 +256,29 @@ CHECKS = {
         note="As C10, plus: the exception class raised by each SDK operation is hand-modelled and tied only by the malformed-input matrix.",
         technique="Coq proof (exception-flow case analysis over generated endpoints) + translation tie + correspondence + snapshot oracle",
         design_ref="DESIGN.md 6.C10/C11, 10.7"),
+
+    "C05": dict(
+        category="proof",
+        text="Both schema files shipped in the repository are translated (fail-closed) into Coq tables = the specification's mapping; "
+             "executable validators for exactly the schema subset used are tied to jsonschema / lxml.XMLSchema by verdict "
+             "correspondence on SDK output and damaged documents. JSON writing: generic theorem `conforms W S = true -> every "
+             "well-formed value encodes to a schema-valid document` (names, nesting, required members, enum literals and spelling, "
+             "cardinalities, length facets; pattern facets relative to a pattern oracle) and `conforms` for the regenerated writer "
+             "tables by vm_compute. XML writing: theorem for element names, nesting, xs:sequence order, cardinalities, wrappers, "
+             "choice alternatives, enum literals. JSON reading: documents produced by spec-derived writer rules (defaults omitted or "
+             "explicit) are decoded to exactly the value by the translated SDK reader rules (instance of C03's generic theorem); the "
+             "schema's key-type literals the reader does not know are exactly 'Identifiable'/'Referable' (refuted, open finding). "
+             "Oracles: SDK output judged by the real validators; an independent writer driven only by the schema tables produces "
+             "spec-valid documents the SDK never emits (explicit defaults, 128-char names, BCP-47 shapes, abstract list types, "
+             "non-canonical xs literals, prefixes) which the strict readers must accept with the same canonical value.",
+        note="Partial: XML leaf facets, every `pattern` decision and XML reading rest on the differential tests only; the JSON reading "
+             "theorem ranges over the image of the spec-derived writers, SDK constructor restrictions are oracle-only. Trusted: kernel + "
+             "vm_compute; translators schemas.py / jsonrules.py / xmlrules.py; spec-side tables in schemas.py; Python re as pattern "
+             "oracle; real validators as judges (two documented quirks). Three open findings pinned by existing tests / wide changes "
+             "(display-name limit 64 vs 128, language tags, key types Referable/Identifiable).",
+        technique="fail-closed translation of schemas and adapters + vm_compute table checks lifted by generic lemmas + validator "
+                  "correspondence + independent-writer oracle",
+        design_ref="DESIGN.md 6.C05, 10.7"),
 }
 
 NOT_YET = "check under construction in this round (see DESIGN.md section 9); not claimed until it is green on the unchanged tree"
